@@ -298,6 +298,34 @@ example : cxxNamesEnumerator ⟨"QActionGroup".toList, "ExclusionPolicy".toList,
     qualifyCxxVariantName ⟨"Qt".toList, "Alignment".toList, false, "AlignLeft".toList⟩ = "Qt::AlignLeft".toList := by
   decide +kernel
 
+/-! ### signal pointers -/
+
+/-- the convention of the Qt headers (and of tools/gen_mock_decls.py) for a signal parameter whose normalised type is
+    recorded in the metatypes: values of class type — QString, QVariant, containers, gadgets — are taken by reference to
+    const, everything else (arithmetic types, enumerations, QFlags, pointers) by value -/
+def declaredParam (a : Str × ArgKind) : Str :=
+  match a.2 with
+  | .prim | .enum | .pointer => a.1
+  | .qstring | .qvariant | .cls | .list => "const ".toList ++ a.1 ++ " &".toList
+
+/-- **`QOverload<Args…>::of` names the declared signal**: it selects a member only by its EXACT parameter list, and the
+    list printed by `format_signal_pointer` is the declared one, argument by argument — lists and gadgets included. -/
+theorem signal_pointer_matches_declaration (u : SignalUse) :
+    u.args.map overloadArg = u.args.map declaredParam := by
+  apply List.map_congr_left
+  intro a _
+  rcases a with ⟨t, k⟩
+  cases k <;> simp [overloadArg, declaredParam, isConstRefPreferred]
+
+example : formatSignalPointer ⟨"QFileDialog".toList, "filesSelected".toList, [("QStringList".toList, .list)]⟩
+      = "QOverload<const QStringList &>::of(&QFileDialog::filesSelected)".toList ∧
+    formatSignalPointer ⟨"WBase".toList, "sigMix2".toList,
+        [("QStringList".toList, .list), ("int".toList, .prim), ("WBase*".toList, .pointer)]⟩
+      = "QOverload<const QStringList &, int, WBase*>::of(&WBase::sigMix2)".toList ∧
+    formatSignalPointer ⟨"QAbstractButton".toList, "clicked".toList, []⟩ = "QOverload<>::of(&QAbstractButton::clicked)".toList ∧
+    formatNonFinite .negInf = "-qInf()".toList := by
+  decide +kernel
+
 /-! ### `std::max/std::min` (F13 — repaired) -/
 
 /-- **Both arguments of every admitted `Math.max/min` call are accepted by `std::max/min` as spelled**: same type for
